@@ -137,6 +137,12 @@ def gen_input(rng, kind):
         if rng.random() < 0.6:          # score ties inside overlap groups
             for hit in case["hits"]:
                 hit[4] = rng.choice([10.0, 20.0])
+            # hmmsearch never reports the same domain twice: no exact duplicates (as in the C13 generator)
+            unique = []
+            for hit in case["hits"]:
+                if hit not in unique:
+                    unique.append(hit)
+            case["hits"] = unique
         return case
     if kind == "hmmer":
         case = H.hmmer_case(rng)
